@@ -161,6 +161,20 @@ def check_mesh(ctx, cfg, with_model=True):
         first = first or dict(key="smooth-moves-the-mesh-it-was-called-on", what="smooth mutates its input", **rp)
     else:
         first = first or check_device_mesh(ctx, dict(cfg, moved="after-smooth-was-called-on-its-mesh"), dev, with_model=False)
+    # the material is changed on the SAME device object (another coherence length) and the device meshed again with the
+    # very same explicit settings as before: the mesh it carries is again the dual of ITS domain, in its length units
+    if not cfg.get("units") and ctx.dist.get("remeshed_after_material_change", 0) < (3 if ctx.quick else 10**9):
+        M_ = float(cfg["mel"]) if cfg["mel"] else 0.0
+        kw_ = dict(max_edge_length=M_, min_points=cfg.get("min_points"), smooth=cfg["smooth"])
+        try:
+            dev.make_mesh(**kw_)
+            dev.layer.coherence_length = 0.8 * float(dev.layer.coherence_length)
+            dev.make_mesh(**kw_)
+        except ValueError:
+            ctx.count("remesh_after_material_change_refused")
+            return first
+        ctx.count("remeshed_after_material_change")
+        first = first or check_device_mesh(ctx, dict(cfg, moved="re-meshed-with-the-same-settings-after-the-coherence-length-changed"), dev, with_model=False)
     return first
 
 
